@@ -438,6 +438,36 @@ def setters_vs_fresh(ctx, emg3d, rng):
                     {'signal_from': s0, 'signal_to': s1, 'ft': ft,
                      'ftarg': repr(ftarg)})
             ctx.count(key=('signal-setter', s0, s1, ft, repr(ftarg)))
+    # the times alone, changed through an augmented assignment (`F.time *= 5`:
+    # the stored array is edited in place and handed back to the setter) or
+    # through the caller's array that the instance was built from
+    for how in ('augmented', 'callers-array', 'new-array'):
+        for ft, ftarg in [('dlf', {}), ('fftlog', {})]:
+            t0 = np.logspace(-1, 1, 6)
+            with warnings.catch_warnings():
+                warnings.simplefilter('ignore')
+                F = emg3d.Fourier(t0, 1e-3, 1e2, ft=ft, ftarg=dict(ftarg),
+                                  verb=0)
+                _ = F.freq_compute
+                if how == 'augmented':
+                    F.time *= 5
+                elif how == 'callers-array':
+                    t0 *= 5
+                    F.time = t0
+                else:
+                    F.time = F.time*5
+                G = emg3d.Fourier(np.logspace(-1, 1, 6)*5, 1e-3, 1e2, ft=ft,
+                                  ftarg=dict(ftarg), verb=0)
+            a, b = attrs(F), attrs(G)
+            if a != b:
+                k = [i for i, (x, y) in enumerate(zip(a, b)) if x != y]
+                bad.append(('time-setter', how, ft, k))
+                ctx.violation(
+                    'setter-state-differs-from-fresh',
+                    f'Fourier(ft={ft!r}) whose times were multiplied by 5 '
+                    f'({how}) differs from a fresh instance with those times '
+                    f'(attribute groups {k})', {'how': how, 'ft': ft})
+            ctx.count(key=('time-setter', how, ft))
     return bad
 
 
